@@ -756,3 +756,22 @@ fn failing_test_classgroup() {
     let d = parse_int("-333684818975420457430375646788");
     classgroup(&d, &prefs, None);
 }
+
+/// Verification hooks (only with `--cfg yamaquasi_verif`): the private parameter functions.
+#[cfg(yamaquasi_verif)]
+pub mod verif_hooks {
+    use super::*;
+
+    pub fn vh_a_params(sz: u32) -> (u32, u32) {
+        a_params(sz)
+    }
+    pub fn vh_interval_size(sz: u32) -> u32 {
+        interval_size(sz)
+    }
+    pub fn vh_large_prime_factor(sz: u32) -> u64 {
+        large_prime_factor(sz)
+    }
+    pub fn vh_double_large_factor(n: &Int) -> u64 {
+        double_large_factor(n)
+    }
+}
